@@ -297,11 +297,12 @@ func (c *Client) Listen() error {
 				break
 			}
 
+			// A datagram that cannot be handled (malformed, a STUN request, an unknown
+			// channel, ...) is discarded; it must not stop the client from reading the
+			// responses and indications that follow, whoever sent it.
 			_, err = c.HandleInbound(buf[:n], from)
 			if err != nil {
-				c.log.Debugf("Failed to handle inbound message: %s. Exiting loop", err)
-
-				break
+				c.log.Debugf("Failed to handle inbound message: %s", err)
 			}
 		}
 
